@@ -156,6 +156,7 @@ type Sim struct {
 	Log          []string
 	All          []*Datagram     // every datagram ever queued
 	NoDeviations bool            // only verdict choices
+	WrongTypeToo bool            // with FaultsOnly: an acknowledgement may also arrive with another message type
 	FaultsOnly   bool            // only transient / hard receive failures (no events, no ACK replacement)
 	CloseAnswers []syscall.Errno // menu for the result of Close (index 0 = default)
 	AckOnlyDevs  bool
@@ -455,6 +456,12 @@ func (s *Sim) Receive(nonBlocking bool, p libaudit.NetlinkParser) ([]syscall.Net
 		if s.FaultsOnly && d.stage == 1 {
 			d.stage = 3
 			d.decided = true
+			if s.WrongTypeToo && d.Kind == "ack" && s.choose("wrong-type-ack", 2) == 1 {
+				// the acknowledgement arrives with the right sequence number and another message type
+				note(DevWrongType)
+				d.Bytes = append([]byte{}, d.Bytes...)
+				binary.LittleEndian.PutUint16(d.Bytes[4:], AuditGet)
+			}
 		}
 		// stage 1: unsolicited events in front of the datagram
 		if d.stage == 1 {
